@@ -24,7 +24,7 @@ void one_case(Ctx &c) {
     txid[n] = 0x600u + srvnode[n]; rxid[n] = 0x580u + srvnode[n];
   }
   w.finish();
-  int ntransfers = 1 + (int)c.t.below(6); bool nt = ntransfers >= 2; int malformed_cnt = 0;
+  int ntransfers = 1 + (int)c.t.below(6); bool nt = ntransfers >= 2; int malformed_cnt = 0, stale_cnt = 0;
   VLOG(c, "node %u, %u timer slots, %d transfer(s)", s.nodeid, s.ntmr, ntransfers);
   for (int x = 0; x < ntransfers; x++) {
     int n = CO_CSDO_N > 1 ? (int)c.t.below(2) : 0;
@@ -52,7 +52,7 @@ void one_case(Ctx &c) {
     CHECK(c, e == CO_ERR_NONE, "request-accepted", "request on the idle client %d refused with %d", n, e);
     { uint8_t other[4]; s.api_begin(); CO_ERR e2 = c.t.coin() ? COCSdoRequestUpload(cl, CO_DEV(idx, sub), other, 4, n ? done1 : done0, 5) : COCSdoRequestDownload(cl, CO_DEV(0x2001, 1), other, 4, n ? done1 : done0, 5); s.api_end("COCSdoRequest");
       CHECK(c, e2 == CO_ERR_SDO_BUSY, "busy-client-refuses", "a busy client accepted a further request (returned %d)", e2); CHECK(c, cb.count == 0, "exactly-one-callback", "the refused request invoked the callback"); }
-    uint32_t off = 0, step = 0; int tgl = 0; long lastreq = s.tick; bool finished = false, conforming = true; uint32_t expcode = 0;
+    uint32_t off = 0, step = 0; int tgl = 0; long lastreq = s.tick; bool finished = false, conforming = true, ended_by_stale = false; uint32_t expcode = 0; bool stale_t = c.t.chance(90);
     for (int guard = 0; !finished; guard++) {
       CHECK(c, guard < 6000, "progress", "transfer makes no progress");
       if (cb.count > 0) { finished = true; break; }
@@ -111,6 +111,35 @@ void one_case(Ctx &c) {
         s.clear_tx(); expcode = 0x05040000u; finished = true; break;
       }
       int delay = (int)c.t.below(3); if (delay >= tmo) delay = 0;     // a late (but in time) answer
+      // a frame that, by its command specifier, toggle bit or multiplexer, cannot be the awaited response (the answer to an earlier,
+      // timed-out transfer arriving late) precedes the server's answer.  Admissible: (a) the client ignores it - no frame, no callback, the
+      // transfer goes on as if it had not arrived; (b) the client ends the transfer there - exactly one callback with a non-zero code.
+      if (conforming && stale_t && !(step == k && beh >= 4) && c.t.chance(77)) {
+        Frame st; st.id = rxid[n]; st.dlc = 8; for (int i = 1; i < 8; i++) st.d[i] = c.t.byte();
+        int awaited = step == 0 ? (up ? 2 : 3) : (up ? 0 : 1), at = (rsp.d[0] >> 4) & 1;
+        uint32_t kind = c.t.below(5);
+        bool early_seg = step == 0 && size > 4 && kind <= 1;   // segment-phase frame before the initiate response of a segmented transfer
+        if (kind == 0) { int t = awaited == 0 ? (at ^ 1) : (int)c.t.below(2); st.d[0] = (uint8_t)((t << 4) | (c.t.below(8) << 1) | c.t.below(2)); }
+        else if (kind == 1) { int t = awaited == 1 ? (at ^ 1) : (int)c.t.below(2); st.d[0] = (uint8_t)(0x20 | (t << 4)); }
+        else {
+          st.d[0] = kind == 2 ? (c.t.coin() ? 0x41 : (uint8_t)(0x42 | (c.t.below(4) << 2) | c.t.below(2))) : kind == 3 ? 0x60 : 0x80;
+          uint16_t fi = idx; uint8_t fs = sub; if (c.t.coin()) fi = (uint16_t)(idx + 1 + c.t.below(0xFFFE)); else fs = (uint8_t)(sub + 1 + c.t.below(255));
+          st.d[1] = (uint8_t)fi; st.d[2] = (uint8_t)(fi >> 8); st.d[3] = fs;
+        }
+        {
+          VLOG(c, "  server -> %s   (stale: cannot be the awaited response)", st.str().c_str());
+          stale_cnt++; s.rx(st);
+          if (cb.count > 0) {
+            CHECK(c, cb.count == 1, "exactly-one-callback", "%d callbacks after a stale frame", cb.count);
+            CHECK(c, cb.code != 0, early_seg ? "early-segment-accepted" : "stale-frame-accepted", "the frame %s cannot be the awaited response (%s of %04X:%02X, step %u) and the server had not completed the transfer, yet the transfer was reported complete with code 0", st.str().c_str(), up ? "upload" : "download", idx, sub, step);
+            for (auto &t : s.tx) CHECK(c, t.id == txid[n] && t.d[0] == 0x80, "client-frames", "after ending the transfer on a stale frame the client sent %s", t.str().c_str());
+            s.clear_tx(); expcode = cb.code; s.rx(rsp);
+            CHECK(c, cb.count == 1 && s.tx.empty(), "nothing-left-behind", "the server's answer to a transfer the client had already ended caused activity");
+            ended_by_stale = true; finished = true; break;
+          }
+          CHECK(c, s.tx.empty(), early_seg ? "early-segment-accepted" : "stale-frame-accepted", "the frame %s cannot be the awaited response (%s of %04X:%02X, step %u); the client neither ignored it nor ended the transfer: it sent %s", st.str().c_str(), up ? "upload" : "download", idx, sub, step, s.tx[0].str().c_str());
+        }
+      }
       for (int d = 0; d < delay; d++) { s.step_tick(); CHECK(c, cb.count == 0 && s.tx.empty(), "timeout-exact", "activity while the answer was still in time"); }
       VLOG(c, "  server -> %s%s", rsp.str().c_str(), conforming ? "" : "   (malformed)");
       s.rx(rsp); lastreq = s.tick; step++;
@@ -138,8 +167,11 @@ void one_case(Ctx &c) {
     if (size > 4) nt = true;
     c.cls(beh < 4 ? "server-conforming" : beh == 4 ? "server-aborts" : beh == 5 ? "server-silent" : "server-malformed");
     if (size > 255) c.cls("size-over-255");
+    if (ended_by_stale) c.cls("stale-frame-ended-transfer");
     c.ops += step + 1;
   }
+  if (stale_cnt) c.cls("stale-frame-injected");
+  (void)malformed_cnt;
   c.nontrivial = nt;
 }
 
